@@ -32,6 +32,8 @@ func init() {
 		Rule{ID: "R20i", Doc: "a decoded value handed to its record is not released again by the decoder", Floor: 8, AllVariants: true, Run: r20i},
 		Rule{ID: "R20j", Doc: "a struct overlaid on a non-zeroed buffer is written completely", Floor: 3, Run: r20j},
 		Rule{ID: "R07d", Doc: "cache values are copied under the entry lock (the lock is what keeps releaseEntry from recycling the buffer; shared with C07)", Floor: 8, Run: r07d},
+		Rule{ID: "R20m", Doc: "the spawner does not assign a variable again that a goroutine it started captured by reference", Floor: 5, AllVariants: true, Run: r20m},
+		Rule{ID: "R20n", Doc: "a slice whose elements were released is cleared or emptied before it is handed on", Floor: 1, AllVariants: true, Run: r20n},
 		Rule{ID: "R20l", Doc: "an object the caller releases when a callee fails is not released by the callee's own error handling as well", Floor: 3, AllVariants: true, Run: r20l},
 		Rule{ID: "R20k", Doc: "message sections own their slices and their records (no slice shared between sections, no record shared between messages)", Floor: 8, AllVariants: true, Run: r20k},
 	)
